@@ -103,3 +103,20 @@ PROPS["C15"] = dict(
              thorough=dict(shards=16, timeout=3000, env=dict(VERIF_C15_PAIRLEN=400))),
     ],
 )
+
+PROPS["C06"] = dict(
+    level="exploration", engine="E1 unit + E3 session",
+    technique="property-based testing (rapid): grammar-generated triggers, look-alikes, id histories and scroll-back against a hand-written reference scanner and a remembered-id model; filter-level one-ACT-per-trigger oracle",
+    level_text="Random search over trigger histories (1-150 chunks: genuine triggers of every mode / version / id / port shape behind arbitrary prefix bytes, "
+               "redraws of seen ids, look-alikes derived by truncating or corrupting a trigger, scroll-back transcripts as the current servers print them, "
+               "tmux control-mode framing with and without tunnel) in client and relay mode, with and without the Windows flag. Oracle: differential against "
+               "an independent hand-written scanner for the fields, a model of the guaranteed repeat window, a second detector on the rewritten output, and a client "
+               "detector on the relayed output.",
+    level_note="Per-read detection (objects under test are within one read). Repeats are asserted suppressed only within the guaranteed window (last 50 distinct "
+               "remembered ids), never-seen ids are asserted to fire, in between nothing is asserted. Finished-transfer words are generated at least 40 bytes after "
+               "the marker (what current servers print); the id-less pre-1.1 scroll-back blind spot is noted in DESIGN.md, not asserted.",
+    rule="non-trivial = history of >=2 chunks or a genuine trigger behind a non-empty prefix; distinct by SHA-1 of the case JSON",
+    tests=[
+        dict(name="TestVF_C06", quick=dict(checks=80000, shards=8, timeout=300), thorough=dict(checks=3000000, shards=16, timeout=3000)),
+    ],
+)
